@@ -403,20 +403,8 @@ impl SuffixArrayBuilder {
 
     /// SA-IS (Suffix Array by Induced Sorting) algorithm implementation
     fn sais_construct(&self, text: &[u8]) -> Result<Vec<usize>> {
-        // Add recursion depth limit to prevent stack overflow
-        self.sais_construct_with_depth(text, 0)
-    }
-    
-    fn sais_construct_with_depth(&self, text: &[u8], depth: usize) -> Result<Vec<usize>> {
-        // Prevent stack overflow with recursion depth limit
-        const MAX_RECURSION_DEPTH: usize = 100;
-        if depth > MAX_RECURSION_DEPTH {
-            // Fall back to simple sorting for deep recursion
-            return self.fallback_sort(text);
-        }
-        
         let n = text.len();
-        
+
         // Guard against excessive memory allocation
         const MAX_TEXT_SIZE: usize = 1 << 30; // 1GB limit
         if n > MAX_TEXT_SIZE {
@@ -424,401 +412,177 @@ impl SuffixArrayBuilder {
                 "Text too large for suffix array construction"
             ));
         }
-        
-        // Find alphabet size
-        let alphabet_size = if self.config.optimize_small_alphabet {
-            256 // Full byte alphabet
-        } else {
-            text.iter().max().unwrap_or(&0).wrapping_add(1) as usize
-        };
-
-        // Step 1: Classify suffixes as L-type or S-type
-        let (suffix_types, is_lms) = self.classify_suffixes(text)?;
-
-        // Step 2: Find LMS suffixes
-        let lms_suffixes = self.find_lms_suffixes(&is_lms);
-
-        if lms_suffixes.is_empty() {
-            // No LMS suffix does not mean a decreasing string: any text made of a rising
-            // run followed by a falling run ("ab", "abcba") has none either, and reversing
-            // the positions is wrong for those. Sort the suffixes directly in this case.
-            let mut sa: Vec<usize> = (0..n).collect();
-            sa.sort_by(|&a, &b| text[a..].cmp(&text[b..]));
-            return Ok(sa);
-        }
-
-        // Step 3: Sort LMS suffixes
-        let mut sa = vec![0; n];
-        let mut bucket = vec![0; alphabet_size];
-        let mut bucket_heads = vec![0; alphabet_size];
-        let mut bucket_tails = vec![0; alphabet_size];
-
-        // Count character frequencies
-        for &ch in text {
-            bucket[ch as usize] += 1;
-        }
-
-        // Compute bucket boundaries
-        self.compute_bucket_boundaries(&bucket, &mut bucket_heads, &mut bucket_tails);
-
-        // Initialize SA with sentinel values
-        for i in 0..n {
-            sa[i] = n; // Use n as sentinel (invalid index)
-        }
-
-        // Place LMS suffixes at the end of their buckets with bounds checking
-        for &lms_idx in lms_suffixes.iter().rev() {
-            if lms_idx >= text.len() {
-                continue; // Skip invalid indices
-            }
-            let ch = text[lms_idx] as usize;
-            if ch < bucket_tails.len() && bucket_tails[ch] > 0 {
-                bucket_tails[ch] -= 1;
-                if bucket_tails[ch] < sa.len() {
-                    sa[bucket_tails[ch]] = lms_idx;
-                }
-            }
-        }
-
-        // Induce L-type suffixes
-        self.induce_l_type(&mut sa, text, &suffix_types, &bucket_heads)?;
-
-        // Induce S-type suffixes
-        self.induce_s_type(&mut sa, text, &suffix_types, &bucket_tails)?;
-
-        // Step 4: Compact LMS suffixes and check if they're unique
-        let lms_sa = self.compact_lms_suffixes(&sa, &is_lms);
-        let lms_names = self.name_lms_substrings(text, &lms_sa, &lms_suffixes)?;
-
-        // Check if all LMS substrings are unique
-        let max_name = lms_names.iter().max().copied().unwrap_or(0);
-        
-        if (max_name as usize) < lms_suffixes.len() {
-            // Not all LMS substrings are unique, recursively sort them with depth tracking
-            let reduced_sa = self.sais_construct_with_depth(&lms_names, depth + 1)?;
-            
-            // Map back to original indices
-            let mut sorted_lms = Vec::new();
-            for &rank in &reduced_sa {
-                sorted_lms.push(lms_suffixes[rank]);
-            }
-
-            // Rebuild SA with sorted LMS suffixes
-            self.rebuild_sa_with_sorted_lms(text, &sorted_lms, &suffix_types, alphabet_size)
-        } else {
-            // All LMS substrings are unique, SA is complete
-            // Handle any remaining sentinel values by finding missing indices
-            if sa.iter().any(|&x| x >= n) {
-                // Find which indices are missing from the suffix array
-                let mut present = vec![false; n];
-                for &val in sa.iter() {
-                    if val < n {
-                        present[val] = true;
-                    }
-                }
-                
-                let missing_indices: Vec<usize> = (0..n).filter(|&i| !present[i]).collect();
-                let mut missing_iter = missing_indices.into_iter();
-                
-                // Replace sentinel values with missing indices
-                for sa_val in sa.iter_mut() {
-                    if *sa_val >= n {
-                        if let Some(missing_idx) = missing_iter.next() {
-                            *sa_val = missing_idx;
-                        }
-                    }
-                }
-            }
-            
-            Ok(sa)
-        }
-    }
-
-    /// Classify each suffix as L-type or S-type
-    fn classify_suffixes(&self, text: &[u8]) -> Result<(Vec<bool>, Vec<bool>)> {
-        let n = text.len();
-        let mut suffix_types = vec![false; n]; // false = L-type, true = S-type
-        let mut is_lms = vec![false; n];
-
         if n == 0 {
-            return Ok((suffix_types, is_lms));
+            return Ok(Vec::new());
         }
 
-        // Last suffix is S-type by definition
-        suffix_types[n - 1] = true;
+        // Induced sorting needs a unique smallest symbol at the end of the string: shift every
+        // byte up by one and append 0 as the sentinel, sort, then drop the sentinel's suffix
+        // (it is the smallest one, so it comes first).
+        let mut symbols: Vec<usize> = Vec::with_capacity(n + 1);
+        symbols.extend(text.iter().map(|&b| b as usize + 1));
+        symbols.push(0);
+        // Find alphabet size (one more than the bytes need: symbol 0 is the sentinel)
+        let alphabet_size = if self.config.optimize_small_alphabet {
+            257 // Full byte alphabet
+        } else {
+            *text.iter().max().unwrap_or(&0) as usize + 2
+        };
+        let sa = Self::sais_sort(&symbols, alphabet_size);
+        debug_assert_eq!(sa[0], n);
+        Ok(sa[1..].to_vec())
+    }
 
-        // Classify suffixes from right to left
+    /// Marker for a suffix array slot that has not been filled yet
+    const SAIS_EMPTY: usize = usize::MAX;
+
+    /// SA-IS on a string of symbols `< alphabet_size` whose last symbol is a unique smallest
+    /// sentinel. Returns the suffix array of the whole string (sentinel included).
+    fn sais_sort(s: &[usize], alphabet_size: usize) -> Vec<usize> {
+        let n = s.len();
+        if n == 1 {
+            return vec![0];
+        }
+
+        // Suffix types: true = S-type (smaller than its successor), false = L-type.
+        // The sentinel is S-type by definition.
+        let mut is_s = vec![false; n];
+        is_s[n - 1] = true;
         for i in (0..n - 1).rev() {
-            if text[i] < text[i + 1] {
-                suffix_types[i] = true; // S-type
-            } else if text[i] > text[i + 1] {
-                suffix_types[i] = false; // L-type
-            } else {
-                // Same character, inherit from next position
-                suffix_types[i] = suffix_types[i + 1];
+            is_s[i] = s[i] < s[i + 1] || (s[i] == s[i + 1] && is_s[i + 1]);
+        }
+        let is_lms = |i: usize| i > 0 && is_s[i] && !is_s[i - 1];
+
+        let mut bucket_sizes = vec![0usize; alphabet_size];
+        for &c in s {
+            bucket_sizes[c] += 1;
+        }
+
+        // LMS positions in text order; the last one is always the sentinel
+        let lms_positions: Vec<usize> = (1..n).filter(|&i| is_lms(i)).collect();
+
+        // Pass 1: put the LMS suffixes into their buckets in any order and induce. This sorts
+        // the LMS substrings.
+        let mut sa = vec![Self::SAIS_EMPTY; n];
+        {
+            let mut tails = Self::sais_bucket_tails(&bucket_sizes);
+            for &p in lms_positions.iter().rev() {
+                let c = s[p];
+                tails[c] -= 1;
+                sa[tails[c]] = p;
             }
         }
+        Self::sais_induce(&mut sa, s, &is_s, &bucket_sizes);
 
-        // Find LMS positions (Left-Most S-type)
-        for i in 1..n {
-            if suffix_types[i] && !suffix_types[i - 1] {
-                is_lms[i] = true;
-            }
-        }
-
-        Ok((suffix_types, is_lms))
-    }
-
-    /// Find all LMS suffix positions
-    fn find_lms_suffixes(&self, is_lms: &[bool]) -> Vec<usize> {
-        is_lms.iter()
-            .enumerate()
-            .filter_map(|(i, &is_lms_pos)| if is_lms_pos { Some(i) } else { None })
-            .collect()
-    }
-
-    /// Compute bucket head and tail positions
-    fn compute_bucket_boundaries(
-        &self,
-        bucket: &[usize],
-        bucket_heads: &mut [usize],
-        bucket_tails: &mut [usize],
-    ) {
-        let mut sum = 0;
-        for i in 0..bucket.len() {
-            bucket_heads[i] = sum;
-            sum += bucket[i];
-            bucket_tails[i] = sum;
-        }
-    }
-
-    /// Induce L-type suffixes from left to right
-    fn induce_l_type(
-        &self,
-        sa: &mut [usize],
-        text: &[u8],
-        suffix_types: &[bool],
-        bucket_heads: &[usize],
-    ) -> Result<()> {
-        let n = text.len();
-        let mut heads = bucket_heads.to_vec();
-
-        for i in 0..n {
-            if sa[i] == n {
-                continue; // Skip sentinel values
-            }
-
-            let j = sa[i];
-            if j > 0 && j <= text.len() && !suffix_types[j - 1] {
-                // Predecessor is L-type
-                if j - 1 < text.len() {
-                    let ch = text[j - 1] as usize;
-                    if ch < heads.len() && heads[ch] < n && heads[ch] < sa.len() {
-                        sa[heads[ch]] = j - 1;
-                        heads[ch] += 1;
-                    }
-                }
-            }
-        }
-
-        Ok(())
-    }
-
-    /// Induce S-type suffixes from right to left
-    fn induce_s_type(
-        &self,
-        sa: &mut [usize],
-        text: &[u8],
-        suffix_types: &[bool],
-        bucket_tails: &[usize],
-    ) -> Result<()> {
-        let n = text.len();
-        let mut tails = bucket_tails.to_vec();
-
-        for i in (0..n).rev() {
-            if sa[i] == n {
-                continue; // Skip sentinel values
-            }
-
-            let j = sa[i];
-            if j > 0 && j <= text.len() && suffix_types[j - 1] {
-                // Predecessor is S-type
-                if j - 1 < text.len() {
-                    let ch = text[j - 1] as usize;
-                    if ch < tails.len() && tails[ch] > 0 && tails[ch] <= sa.len() {
-                        tails[ch] -= 1;
-                        if tails[ch] < sa.len() {
-                            sa[tails[ch]] = j - 1;
-                        }
-                    }
-                }
-            }
-        }
-
-        Ok(())
-    }
-
-    /// Compact LMS suffixes from the suffix array
-    fn compact_lms_suffixes(&self, sa: &[usize], is_lms: &[bool]) -> Vec<usize> {
-        sa.iter()
-            .filter_map(|&pos| {
-                if pos < is_lms.len() && is_lms[pos] {
-                    Some(pos)
-                } else {
-                    None
-                }
-            })
-            .collect()
-    }
-
-    /// Assign names to LMS substrings based on their lexicographic order
-    fn name_lms_substrings(
-        &self,
-        text: &[u8],
-        lms_sa: &[usize],
-        lms_suffixes: &[usize],
-    ) -> Result<Vec<u8>> {
-        let mut names = vec![0u8; lms_suffixes.len()];
-        let mut current_name = 0u8;
-
-        if !lms_sa.is_empty() {
-            names[0] = current_name;
-
-            for i in 1..lms_sa.len() {
-                if !self.are_lms_substrings_equal(text, lms_sa[i - 1], lms_sa[i], lms_suffixes)? {
-                    current_name = current_name.wrapping_add(1);
-                }
-                
-                // Find position of lms_sa[i] in lms_suffixes with bounds checking
-                if lms_sa[i] < text.len() {
-                    let pos = lms_suffixes.iter().position(|&x| x == lms_sa[i])
-                        .ok_or_else(|| crate::error::ZiporaError::invalid_data("LMS suffix not found"))?;
-                    if pos < names.len() {
-                        names[pos] = current_name;
-                    }
-                } else {
-                    return Err(crate::error::ZiporaError::invalid_data("Invalid LMS suffix index"));
-                }
-            }
-        }
-
-        Ok(names)
-    }
-
-    /// Check if two LMS substrings are equal
-    fn are_lms_substrings_equal(
-        &self,
-        text: &[u8],
-        pos1: usize,
-        pos2: usize,
-        lms_suffixes: &[usize],
-    ) -> Result<bool> {
-        if pos1 >= text.len() || pos2 >= text.len() {
-            return Ok(false);
-        }
-        
-        // Additional safety check for bounds
-        if pos1 == pos2 {
-            return Ok(true);
-        }
-
-        // Find the end of each LMS substring
-        let end1 = self.find_lms_substring_end(pos1, lms_suffixes, text.len());
-        let end2 = self.find_lms_substring_end(pos2, lms_suffixes, text.len());
-
-        let len1 = end1 - pos1;
-        let len2 = end2 - pos2;
-
-        if len1 != len2 {
-            return Ok(false);
-        }
-
-        // Compare character by character with bounds checking
-        for i in 0..len1 {
-            if pos1 + i >= text.len() || pos2 + i >= text.len() {
-                return Ok(false);
-            }
-            if text[pos1 + i] != text[pos2 + i] {
-                return Ok(false);
-            }
-        }
-
-        Ok(true)
-    }
-
-    /// Find the end position of an LMS substring
-    fn find_lms_substring_end(&self, start: usize, lms_suffixes: &[usize], text_len: usize) -> usize {
-        // Find next LMS position after start
-        lms_suffixes.iter()
-            .find(|&&pos| pos > start)
-            .copied()
-            .unwrap_or(text_len)
-    }
-
-    /// Rebuild the suffix array with sorted LMS suffixes
-    fn rebuild_sa_with_sorted_lms(
-        &self,
-        text: &[u8],
-        sorted_lms: &[usize],
-        suffix_types: &[bool],
-        alphabet_size: usize,
-    ) -> Result<Vec<usize>> {
-        let n = text.len();
-        let mut sa = vec![n; n]; // Initialize with sentinel values
-        let mut bucket = vec![0; alphabet_size];
-        let mut bucket_heads = vec![0; alphabet_size];
-        let mut bucket_tails = vec![0; alphabet_size];
-
-        // Count character frequencies
-        for &ch in text {
-            bucket[ch as usize] += 1;
-        }
-
-        // Compute bucket boundaries
-        self.compute_bucket_boundaries(&bucket, &mut bucket_heads, &mut bucket_tails);
-
-        // Place sorted LMS suffixes with bounds checking
-        for &lms_pos in sorted_lms.iter().rev() {
-            if lms_pos >= text.len() {
+        // Name the LMS substrings in their sorted order; equal substrings share a name
+        let mut names = vec![Self::SAIS_EMPTY; n];
+        let mut name = 0usize;
+        let mut prev = Self::SAIS_EMPTY;
+        for &pos in sa.iter() {
+            if pos == Self::SAIS_EMPTY || !is_lms(pos) {
                 continue;
             }
-            let ch = text[lms_pos] as usize;
-            if ch < bucket_tails.len() && bucket_tails[ch] > 0 {
-                bucket_tails[ch] -= 1;
-                if bucket_tails[ch] < sa.len() {
-                    sa[bucket_tails[ch]] = lms_pos;
-                }
-            }
-        }
-
-        // Induce L-type and S-type suffixes
-        self.induce_l_type(&mut sa, text, suffix_types, &bucket_heads)?;
-        self.induce_s_type(&mut sa, text, suffix_types, &bucket_tails)?;
-
-        // Handle any remaining sentinel values by finding missing indices
-        if sa.iter().any(|&x| x >= n) {
-            // Find which indices are missing from the suffix array
-            let mut present = vec![false; n];
-            for &val in sa.iter() {
-                if val < n {
-                    present[val] = true;
-                }
-            }
-            
-            let missing_indices: Vec<usize> = (0..n).filter(|&i| !present[i]).collect();
-            let mut missing_iter = missing_indices.into_iter();
-            
-            // Replace sentinel values with missing indices
-            for sa_val in sa.iter_mut() {
-                if *sa_val >= n {
-                    if let Some(missing_idx) = missing_iter.next() {
-                        *sa_val = missing_idx;
+            if prev != Self::SAIS_EMPTY {
+                let mut differ = false;
+                let mut d = 0usize;
+                loop {
+                    let a = prev + d;
+                    let b = pos + d;
+                    if a >= n || b >= n || s[a] != s[b] || is_s[a] != is_s[b] {
+                        differ = true;
+                        break;
                     }
+                    if d > 0 && (is_lms(a) || is_lms(b)) {
+                        // both substrings end here (types and symbols agree, so both are LMS)
+                        break;
+                    }
+                    d += 1;
+                }
+                if differ {
+                    name += 1;
                 }
             }
+            names[pos] = name;
+            prev = pos;
         }
-        
-        Ok(sa)
+        let name_count = name + 1;
+
+        // Order of the LMS suffixes: directly from the names if they are all distinct,
+        // otherwise from the suffix array of the reduced string (which again ends in a
+        // unique smallest symbol, the name of the sentinel's substring)
+        let reduced: Vec<usize> = lms_positions.iter().map(|&p| names[p]).collect();
+        let lms_order: Vec<usize> = if name_count < reduced.len() {
+            Self::sais_sort(&reduced, name_count)
+        } else {
+            let mut order = vec![0usize; reduced.len()];
+            for (i, &nm) in reduced.iter().enumerate() {
+                order[nm] = i;
+            }
+            order
+        };
+
+        // Pass 2: put the LMS suffixes into their buckets in sorted order and induce the rest
+        for slot in sa.iter_mut() {
+            *slot = Self::SAIS_EMPTY;
+        }
+        {
+            let mut tails = Self::sais_bucket_tails(&bucket_sizes);
+            for &r in lms_order.iter().rev() {
+                let p = lms_positions[r];
+                let c = s[p];
+                tails[c] -= 1;
+                sa[tails[c]] = p;
+            }
+        }
+        Self::sais_induce(&mut sa, s, &is_s, &bucket_sizes);
+        sa
+    }
+
+    /// First slot of every bucket
+    fn sais_bucket_heads(bucket_sizes: &[usize]) -> Vec<usize> {
+        let mut heads = vec![0usize; bucket_sizes.len()];
+        let mut sum = 0usize;
+        for (i, &size) in bucket_sizes.iter().enumerate() {
+            heads[i] = sum;
+            sum += size;
+        }
+        heads
+    }
+
+    /// One past the last slot of every bucket
+    fn sais_bucket_tails(bucket_sizes: &[usize]) -> Vec<usize> {
+        let mut tails = vec![0usize; bucket_sizes.len()];
+        let mut sum = 0usize;
+        for (i, &size) in bucket_sizes.iter().enumerate() {
+            sum += size;
+            tails[i] = sum;
+        }
+        tails
+    }
+
+    /// Induce the L-type suffixes (left to right, filling bucket heads) and then the S-type
+    /// suffixes (right to left, filling bucket tails) from the suffixes already placed
+    fn sais_induce(sa: &mut [usize], s: &[usize], is_s: &[bool], bucket_sizes: &[usize]) {
+        let n = s.len();
+        let mut heads = Self::sais_bucket_heads(bucket_sizes);
+        for i in 0..n {
+            let j = sa[i];
+            if j != Self::SAIS_EMPTY && j > 0 && !is_s[j - 1] {
+                let c = s[j - 1];
+                sa[heads[c]] = j - 1;
+                heads[c] += 1;
+            }
+        }
+        // the S-type slots written by the first pass (LMS suffixes) are recomputed here
+        let mut tails = Self::sais_bucket_tails(bucket_sizes);
+        for i in (0..n).rev() {
+            let j = sa[i];
+            if j != Self::SAIS_EMPTY && j > 0 && is_s[j - 1] {
+                let c = s[j - 1];
+                tails[c] -= 1;
+                sa[tails[c]] = j - 1;
+            }
+        }
     }
 
     /// DC3 (Divide-and-Conquer-3) algorithm implementation
@@ -901,23 +665,6 @@ impl SuffixArrayBuilder {
     fn build_parallel(&self, text: &[u8]) -> Result<Vec<usize>> {
         // For now, fall back to sequential - full parallel SA-IS is very complex
         self.build_sequential(text)
-    }
-    
-    /// Fallback sorting algorithm for when recursion depth is exceeded
-    fn fallback_sort(&self, text: &[u8]) -> Result<Vec<usize>> {
-        if text.is_empty() {
-            return Ok(Vec::new());
-        }
-        
-        // Use simple sorting for small texts or deep recursion
-        let mut sa: Vec<usize> = (0..text.len()).collect();
-        sa.sort_by(|&a, &b| {
-            let suffix_a = &text[a..];
-            let suffix_b = &text[b..];
-            suffix_a.cmp(suffix_b)
-        });
-        
-        Ok(sa)
     }
 }
 
